@@ -808,8 +808,16 @@ func opSolverRun(g *G) (interface{}, []uint64, int, interface{}) {
 	n2 := sp.build()
 	out.StdRec = one(n2, n2, &JOp{K: "rec"})
 	out.StdRec2 = oneWith(n2, n2, load2, &JOp{K: "rec"})
+	// half of the cases: all fast solvers are requested from ONE Network object (each call must return an independent
+	// solver: another solver requested, loaded and run in between does not disturb one that is already loaded)
+	sharedNet := g.chance(0.5)
+	nShared := sp.build()
 	mk := func() *network.FastModularNetworkSolver {
-		s, err := sp.build().FastNetworkSolver()
+		src := nShared
+		if !sharedNet {
+			src = sp.build()
+		}
+		s, err := src.FastNetworkSolver()
 		if err != nil {
 			out.BuildErr = solverErrClass(err)
 			return nil
@@ -818,7 +826,20 @@ func opSolverRun(g *G) (interface{}, []uint64, int, interface{}) {
 	}
 	if f := mk(); f != nil {
 		out.FastNet = dumpFastNet(f)
-		out.Fwd = one(f, nil, &JOp{K: "fwd", N: in.K})
+		if sharedNet {
+			if _, err := applyOp(f, load); err == nil {
+				if other := mk(); other != nil {
+					_, _ = applyOp(other, load2)
+					_, _ = applyOp(other, &JOp{K: "fwd", N: in.K})
+				}
+				st := runScript(f, nil, []*JOp{{K: "fwd", N: in.K}}, &nan)
+				out.Fwd = &st[0]
+			} else {
+				out.Fwd = one(f, nil, &JOp{K: "fwd", N: in.K})
+			}
+		} else {
+			out.Fwd = one(f, nil, &JOp{K: "fwd", N: in.K})
+		}
 		out.Fwd2 = oneWith(f, nil, load2, &JOp{K: "fwd", N: in.K})
 		fr := mk()
 		out.Rec = one(fr, nil, &JOp{K: "rec"})
